@@ -516,6 +516,11 @@ func c16TableCase(t *vb.Table, startRow int) (hx.Sx, bool, error) {
 	return hx.L(abs, hx.I(startRow), hx.S(text.String()), hx.List(recx), hx.I(n), hx.S(wbuf.String())), noGeo, nil
 }
 
+// c16OneRowTag marks a case that holds a table with fewer than two rows: ToCSV
+// writes the summary record for it, ToText does not (known finding
+// C16_csv_summary_one_row).
+const c16OneRowTag = "one_row_table"
+
 // c16AbsTable is the abstract table of Model/Render.v for one real benchtab.Table.
 func c16AbsTable(t *vb.Table) (hx.Sx, bool) {
 	cls := benchunit.ClassOf(t.Unit)
@@ -709,6 +714,7 @@ func c16RunTextCSV(o *hx.Out, dir string, in bsInput, fl bsFlags) error {
 	startRow := 1
 	anyNoGeo := false
 	multi := false
+	oneRow := false
 	for _, t := range run.tables.Tables {
 		startRow++ // the table-key header line Tables.ToCSV writes
 		tc, noGeo, err := c16TableCase(t, startRow)
@@ -722,6 +728,13 @@ func c16RunTextCSV(o *hx.Out, dir string, in bsInput, fl bsFlags) error {
 			// CSV column 26 and beyond carry cell references
 			tags = append(tags, "csv_col_ge_26")
 			o.Count("textcsv:csv_col_ge_26")
+		}
+		if len(t.Rows) < 2 && !oneRow {
+			// known finding C16_csv_summary_one_row: decided from the table both
+			// renderings are given (its number of rows), nothing else
+			oneRow = true
+			tags = append(tags, c16OneRowTag)
+			o.Count("textcsv:case-with-one-row-table")
 		}
 		o.Count(fmt.Sprintf("textcsv:cols=%d", min(len(t.Cols), 4)))
 		o.Count(fmt.Sprintf("textcsv:rows=%d", min(len(t.Rows), 4)))
@@ -825,6 +838,7 @@ func c16AddRun(o *hx.Out, tabs *vb.Tables, in bsInput, kind string, tags ...stri
 	}
 	var tx []hx.Sx
 	laterWarn, toEmpty, maxNotes, twoDigit := false, false, 0, 0
+	oneRow := false
 	for i, t := range tabs.Tables {
 		var vals []string
 		for _, f := range fields {
@@ -835,6 +849,10 @@ func c16AddRun(o *hx.Out, tabs *vb.Tables, in bsInput, kind string, tags ...stri
 		}
 		abs, _ := c16AbsTable(t)
 		tx = append(tx, hx.L(hx.SList(vals), abs))
+		if len(t.Rows) < 2 && !oneRow {
+			oneRow = true
+			tags = append(append([]string{}, tags...), c16OneRowTag)
+		}
 		nw := len(c16TableWarnings(t))
 		if i > 0 && nw > 0 {
 			laterWarn = true
@@ -860,6 +878,9 @@ func c16AddRun(o *hx.Out, tabs *vb.Tables, in bsInput, kind string, tags ...stri
 		recx = append(recx, hx.SList(rec))
 	}
 	o.Count("run:" + kind)
+	if oneRow {
+		o.Count("run:with-one-row-table")
+	}
 	o.Count(fmt.Sprintf("run:tables=%d", min(len(tabs.Tables), 6)))
 	o.Count(fmt.Sprintf("run:keyfields=%d", min(len(fields), 5)))
 	if laterWarn {
@@ -1087,7 +1108,7 @@ func c16GenManyNotes(r *hx.Rng) (bsInput, bsFlags) {
 }
 
 func genC16(o *hx.Out, r *hx.Rng, tier string, replay string) error {
-	o.Rule = "text vs CSV: C14-style generated benchstat inputs (1-3 files, flag grid, missing cells, units with/without metadata, single-row tables) with extra zero/negative measurements (columns without geomean), run in process; per table the real ToText text and the real ToCSV records+warnings are compared cell by cell; per run the real Tables.ToCSV output (all records incl. blank separators and table-key header lines, warning stream) against the multi-table model, and every cell reference must name a data/summary record of its table; whole runs (the generic inputs plus multi-table inputs: 2-3 file configurations some lacking keys the others have, 1-3 units, 1-3 files, 1-10 samples, all-equal samples, differing benchmark sets, zero values, -table goos|pkg|goos,pkg|.config@alpha; and many-notes inputs: 5-8 benchmarks x 2-3 files with assume=exact and/or residue fields varying inside the cells, 10-30 different warnings in one table): the real Tables.ToText and Tables.ToCSV outputs against the table keys and tables the in-process Tables report - header lines reconstruct every table key in both renderings, per table text vs CSV with the warnings looked up at the real spreadsheet row, every reported warning names exactly its cell, footnote numbers distinct. benchtab: the real parse->Builder->ToTables->Table.ToText pipeline on 1-3 generated files (random/disjoint benchmark subsets, 1-7 samples, 1-2 units, -col .file | /format | .file,/format | goos): right borders of all header lines aligned, bars nested, no text beyond the border, no trailing blanks. texttab: random API call sequences (1-8 rows, 1-10 columns, spans 1-6 wider/narrower than the cells beneath, shrink patterns 0/30/60/100% incl. all-shrink spans, empty/blank cells, multi-byte text, margins) and benchstat-shaped tables with missing benchmarks; KeyHeader: random key slices over 1-4 fields with small value domains (incl. empty values, repeated non-adjacent prefixes). Gap classes (c16gaps.go): texttab tables whose multi-column header cells start in a column with a non-empty left margin and carry a label of width(columns below) - margin + d runes, d in -2..+5 (benchstat-shaped with 1-4 experiments and 1-2 header levels; generic bodies of single-column cells under 1-2 rows of spans with margins and shrink columns); real benchtab tables and whole runs whose file labels have that length relative to their column group; whole runs over files A, X1..Xk, D where every unit is measured in A, D and its own subset of the middle files (consecutive tables with equally many columns, the same first and last column key and different keys in between); row-scale cases (kind 6): per real table the ToText text and the cells' centres, rows whose least non-zero |centre| is negative, all-negative rows, rows mixing zero, negative and positive centres - the centres printed in the text are read back and judged by the C10 shared-scale clause (one prefix and precision per row, that of the least non-zero magnitude, every centre within half a unit of the last printed digit). non-trivial = table has a multi-column span / header merges at least one pair of keys"
+	o.Rule = "text vs CSV: C14-style generated benchstat inputs (1-3 files, flag grid, missing cells, units with/without metadata, single-row tables) with extra zero/negative measurements (columns without geomean), run in process; per table the real ToText text and the real ToCSV records+warnings are compared cell by cell; per run the real Tables.ToCSV output (all records incl. blank separators and table-key header lines, warning stream) against the multi-table model, and every cell reference must name a data/summary record of its table; whole runs (the generic inputs plus multi-table inputs: 2-3 file configurations some lacking keys the others have, 1-3 units, 1-3 files, 1-10 samples, all-equal samples, differing benchmark sets, zero values, -table goos|pkg|goos,pkg|.config@alpha; and many-notes inputs: 5-8 benchmarks x 2-3 files with assume=exact and/or residue fields varying inside the cells, 10-30 different warnings in one table): the real Tables.ToText and Tables.ToCSV outputs against the table keys and tables the in-process Tables report - header lines reconstruct every table key in both renderings, per table text vs CSV with the warnings looked up at the real spreadsheet row, every reported warning names exactly its cell, footnote numbers distinct. benchtab: the real parse->Builder->ToTables->Table.ToText pipeline on 1-3 generated files (random/disjoint benchmark subsets, 1-7 samples, 1-2 units, -col .file | /format | .file,/format | goos): right borders of all header lines aligned, bars nested, no text beyond the border, no trailing blanks. texttab: random API call sequences (1-8 rows, 1-10 columns, spans 1-6 wider/narrower than the cells beneath, shrink patterns 0/30/60/100% incl. all-shrink spans, empty/blank cells, multi-byte text, margins) and benchstat-shaped tables with missing benchmarks; blank-tail tables (c16audit.go): 2-6 rows whose LAST printed cell has a blank text (empty, U+0020s, tab, U+00A0, U+3000) centred or right-aligned behind a visible margin (also margins ending in blanks), single or spanning, in a column made wide by another row, plus texts with blanks at their own ends; KeyHeader: random key slices over 1-4 fields with small value domains (incl. empty values, repeated non-adjacent prefixes). Gap classes (c16gaps.go): texttab tables whose multi-column header cells start in a column with a non-empty left margin and carry a label of width(columns below) - margin + d runes, d in -2..+5 (benchstat-shaped with 1-4 experiments and 1-2 header levels; generic bodies of single-column cells under 1-2 rows of spans with margins and shrink columns); real benchtab tables and whole runs whose file labels have that length relative to their column group; whole runs over files A, X1..Xk, D where every unit is measured in A, D and its own subset of the middle files (consecutive tables with equally many columns, the same first and last column key and different keys in between); row-scale cases (kind 6): per real table the ToText text and the cells' centres, rows whose least non-zero |centre| is negative, all-negative rows, rows mixing zero, negative and positive centres - the centres printed in the text are read back and judged by the C10 shared-scale clause (one prefix and precision per row, that of the least non-zero magnitude, every centre within half a unit of the last printed digit). non-trivial = table has a multi-column span / header merges at least one pair of keys"
 	n := 3000
 	if tier == "thorough" {
 		n = 150000
@@ -1102,6 +1123,8 @@ func genC16(o *hx.Out, r *hx.Rng, tier string, replay string) error {
 			{Op: "shrink", N: 1, On: true}, {Op: "shrink", N: 2, On: true}, {Op: "shrink", N: 3, On: true}}
 		c16AddTable(o, ops, "witness")
 	}
+	// audit item 1 (c16audit.go): last cells with blank centred / right-aligned texts
+	c16GenAudit(o, r, tier)
 	for i := 0; i < n; i++ {
 		switch {
 		case i%5 == 4:
@@ -1155,6 +1178,17 @@ func genC16(o *hx.Out, r *hx.Rng, tier string, replay string) error {
 			{Name: "f1.txt", Content: "BenchmarkA 1 0 ns/op\nBenchmarkA 1 0 ns/op\nBenchmarkB 1 20 ns/op\nBenchmarkB 1 22 ns/op\n"}}}
 		fl2 := bsFlags{alpha: -1, confidence: -1}
 		if err := c16RunTextCSV(o, dir, w2, fl2); err != nil {
+			return err
+		}
+		// known finding C16_csv_summary_one_row: one row, whose summary carries a
+		// warning (zero measurement) - in the CSV only; with one and with two files
+		w3 := bsInput{Files: []bsFile{{Name: "z.txt", Content: "BenchmarkA 1 0 ns/op\nBenchmarkA 1 0 ns/op\n"}}}
+		if err := c16RunTextCSV(o, dir, w3, fl2); err != nil {
+			return err
+		}
+		w4 := bsInput{Files: []bsFile{{Name: "y.txt", Content: "BenchmarkA 1 5 ns/op\nBenchmarkA 1 6 ns/op\n"},
+			{Name: "z.txt", Content: "BenchmarkA 1 0 ns/op\nBenchmarkA 1 0 ns/op\n"}}}
+		if err := c16RunTextCSV(o, dir, w4, fl2); err != nil {
 			return err
 		}
 	}
